@@ -15,6 +15,7 @@ import Driver.C18
 import Driver.C36
 import Driver.C33
 import Driver.C32
+import Driver.C34
 open Mitum Mitum.Driver
 
 def step (line : String) : String :=
@@ -35,6 +36,7 @@ def step (line : String) : String :=
   | "C31" :: ts => stepC31 ts
   | "C32" :: ts => stepC32 ts
   | "C33" :: ts => stepC33 ts
+  | "C34" :: ts => stepC34 ts
   | "C35" :: ts => stepC35 ts
   | "C36" :: ts => stepC36 ts
   | "C37" :: ts => stepC37 ts
